@@ -136,7 +136,7 @@ PROPERTIES = {
     },
     "C15": {
         "quick": [rs("release", "release", 4.0)],
-        "thorough": [rs("release", "release"), rs("checked", "checked", 0.1)],
+        "thorough": [rs("release", "release", 8.0), rs("checked", "checked", 0.5)],
     },
     "C16": {
         "quick": [rs("release", "release", 6.0)],
